@@ -282,8 +282,15 @@ def _run(tape, out, elfi, root):
         cur_spec = specs[version]
         # refuses-mismatch
         if pool.has_context and tape.chance('try_mismatch', 1, 3):
-            for kw, name in (({'batch_size': bs + 1, 'seed': seed}, 'batch_size'),
-                             ({'batch_size': bs, 'seed': seed + 1}, 'seed')):
+            other_seed = tape.choice('other_seed', [seed + 1, 0, seed - 1, 2 ** 31 - 1])
+            other_bs = tape.choice('other_bs', [bs + 1, max(1, bs - 1), 2 * bs])
+            tries = []
+            if other_bs != bs:
+                tries.append(({'batch_size': other_bs, 'seed': seed}, 'batch_size'))
+            if other_seed != seed and other_seed >= 0:
+                tries.append(({'batch_size': bs, 'seed': other_seed},
+                              'seed-zero' if other_seed == 0 else 'seed'))
+            for kw, name in tries:
                 try:
                     elfi.Rejection(user_model, cur_spec['disc'], pool=pool, **kw)
                 except ValueError:
